@@ -15,7 +15,7 @@ QUASI_SIGNS = ['Iterable', 'Container', 'Reversible']
 MAP_SIGNS = sorted(U.MAP_ORIGIN)
 SCALAR_CLASSES = ['int', 'str', 'bool', 'float', 'bytes', 'NoneType', 'UserA', 'UserB', 'UserC']
 SPIED = ['list', 'tuple', 'deque', 'UserList', 'set', 'frozenset', 'dict', 'defaultdict', 'OrderedDict',
-         'Counter', 'UserSeq', 'UserColl', 'UserIter', 'UserMap', 'UserSizedIter']
+         'Counter', 'UserSeq', 'UserColl', 'UserIter', 'UserMap', 'UserSizedIter', 'UserRev']
 
 
 # ------------------------------------------------------------------ Coq printers
@@ -233,8 +233,8 @@ CONT_OF_ORIGIN = {
     'Collection': ['list', 'set', 'UserColl', 'dict_values', 'tuple', 'deque', 'dict'], 'deque': ['deque'],
     'KeysView': ['dict_keys'], 'ValuesView': ['dict_values'],
     'Iterable': ['list', 'UserIter', 'generator', 'list_iterator', 'set', 'UserColl', 'UserSeq', 'dict',
-                 'UserSizedIter', 'UserSizedIter'],
-    'Container': ['list', 'UserCont', 'set', 'UserColl', 'tuple'], 'Reversible': ['list', 'UserSeq', 'dict', 'deque'],
+                 'UserSizedIter', 'UserSizedIter', 'UserRev'],
+    'Container': ['list', 'UserCont', 'set', 'UserColl', 'tuple'], 'Reversible': ['list', 'UserSeq', 'dict', 'deque', 'UserRev', 'UserRev'],
 }
 MAP_OF_ORIGIN = {'dict': ['dict', 'defaultdict', 'OrderedDict', 'Counter'], 'Mapping': ['dict', 'UserMap', 'ChainMap'],
                  'MutableMapping': ['dict', 'defaultdict', 'ChainMap'], 'defaultdict': ['defaultdict'],
